@@ -26,7 +26,8 @@ impl Property for C11 {
          sub/default.do; histories of 4-10 steps alternating builds (redo and redo-ifchange of one or \
          two names, -j1..3) with the user creating a file under such a name, overwriting a generated \
          target by hand, removing it again, and editing sources, so that files change role between \
-         source and target several times; oracle: no redo process issues rename-onto, unlink, \
+         source and target several times; in every fifth scenario one build is SIGKILLed part-way (process \
+         or tree) and the user writes a file right afterwards; oracle: no redo process issues rename-onto, unlink, \
          create/truncate-open or truncate on a path the model marks user-owned (trace invariant at the \
          libc seam), (inode, bytes) of every user-owned file are the same before and after every \
          command, no script runs for a user-owned name, a requested user-modified generated file is \
@@ -34,7 +35,7 @@ impl Property for C11 {
          it again, from-scratch freshness of what was requested; non-trivial = >=1 script and >=1 \
          user-owned file under a rule-matched name; distinct = (scenario, preemption signature)"
     }
-    fn generate(&self, rng: &mut Rng, seed: u64, _tier: Tier, _index: u64) -> Case {
+    fn generate(&self, rng: &mut Rng, seed: u64, _tier: Tier, index: u64) -> Case {
         let files = vec![("s0".to_string(), source_content("s0", 0))];
         let mut rules: Vec<(String, Rule)> = Vec::new();
         let r = |deps: Vec<&str>| Rule {
@@ -98,16 +99,45 @@ impl Property for C11 {
             }
         }
         build(rng, &mut sc);
+        let mut opts = PlayOpts {
+            record_events: true,
+            ..Default::default()
+        };
+        let mut meta = BTreeMap::new();
+        if index % 5 == 4 {
+            // one of the builds (not the last) is killed part-way -- the process
+            // or the whole tree --, and the user keeps creating and editing files
+            // afterwards: an interrupted build gives redo no right to a file the
+            // user writes later
+            let builds: Vec<usize> = sc
+                .history
+                .iter()
+                .enumerate()
+                .filter(|(_, s)| matches!(s, Step::Cmds(_)))
+                .map(|(i, _)| i)
+                .collect();
+            if builds.len() >= 2 {
+                let gi = builds[rng.below(builds.len() as u64 - 1) as usize];
+                opts.kill_at = Some((gi, rng.range(5, 250), rng.chance(1, 2)));
+                meta.insert("killed_group".to_string(), serde_json::json!(gi));
+                // right after the kill the user writes one of the names by hand
+                let n = rng.pick(&NAMES).to_string();
+                sc.history.insert(
+                    gi + 1,
+                    Step::Write {
+                        path: n.clone(),
+                        bytes: format!("user {} after the kill\n", n).into_bytes(),
+                    },
+                );
+            }
+        }
         Case {
             property: "C11".into(),
             seed,
             scenario: sc,
             knobs: Knobs::draw(rng),
-            opts: PlayOpts {
-                record_events: true,
-                ..Default::default()
-            },
-            meta: BTreeMap::new(),
+            opts,
+            meta,
         }
     }
     fn nontrivial(&self, _case: &Case, rec: &RunRecord) -> bool {
@@ -136,6 +166,22 @@ impl Property for C11 {
                 .filter(|(_, f)| f.owner == Owner::User)
                 .map(|(p, f)| (p, &f.bytes))
                 .collect();
+            // After a kill, a target whose *re*build was interrupted is in an
+            // undefined state and is rebuilt by the next run (the BUILDING stamp of
+            // fix 9f1f483); an edit the user makes to such a file after the kill is
+            // not protected.  Names redo had never generated before the kill are.
+            let killed = case.opts.kill_at.map(|(k, _, _)| k);
+            let exempt: std::collections::BTreeSet<String> = match killed {
+                Some(k) if idx > k => rec.db_after[..k]
+                    .iter()
+                    .rev()
+                    .flatten()
+                    .next()
+                    .map(|db| db.files.iter().filter(|(_, f)| f.0).map(|(n, _)| n.clone()).collect())
+                    .unwrap_or_default(),
+                _ => Default::default(),
+            };
+            let user: Vec<(&String, &Vec<u8>)> = user.into_iter().filter(|(p, _)| !exempt.contains(*p)).collect();
             let is_user = |p: &str| user.iter().any(|(u, _)| u.as_str() == p) || world.rules.contains_key(p);
             // trace invariant
             for e in &g.events {
@@ -231,7 +277,9 @@ impl Property for C11 {
                         _ => {}
                     }
                 }
-                if overwrote_generated {
+                // (after a kill the record of an interrupted first build does not
+                // say "generated": no warning is owed)
+                if overwrote_generated && !killed.map_or(false, |k| idx >= k) {
                     let e = &g.results[0].stderr;
                     if !(e.contains("you modified it") || e.contains("not redoing")) {
                         v.push(Violation {
@@ -244,7 +292,10 @@ impl Property for C11 {
                     }
                 }
             }
-            if g.results[0].status == Some(0) {
+            // what an interrupted build leaves behind is C10's business; after a
+            // kill only the user's files are judged here
+            let after_kill = killed.map_or(false, |k| idx >= k);
+            if g.results[0].status == Some(0) && !after_kill {
                 v.extend(freshness(rec, idx, &req));
                 // after the user removed a file, the rule builds it again
                 for t in &req {
